@@ -55,10 +55,11 @@ Fixpoint adapt (b : binds) (r : list (string * fval)) : option hrec :=
 (* ------------------------------------------------------------------ struct_parse *)
 Definition SEEK_LIMIT : Z := 2 ^ 63.      (* BytesIO.seek(pos >= 2**63) raises OverflowError *)
 
-(* common/utils.py struct_parse(struct, stream, stream_pos): seek, parse, ConstructError -> ELFParseError *)
+(* common/utils.py struct_parse(struct, stream, stream_pos): seek, parse;
+   ConstructError and the OverflowError of an unseekable position -> ELFParseError *)
 Definition struct_parse_at (L : layout) (b : binds) (img : list Z) (pos : Z) : res hrec :=
-  if SEEK_LIMIT <=? pos then Err (EPy "OverflowError")
-  else match decode_layout L (skipn (Z.to_nat pos) img) with
+  if SEEK_LIMIT <=? pos then Err EParse
+  else match decode_layout L (drop pos img) with
        | Some (r, _) => match adapt b r with Some h => Ok h | None => Err EParse end
        | None => Err EParse
        end.
@@ -160,7 +161,11 @@ Definition some_hdr (h : option hrec) : res hrec :=
 (* ---- get_shstrndx *)
 Definition get_shstrndx (c : efcore) : res Z :=
   if negb (hz (c_hdr c) "e_shstrndx" =? SHN_XINDEX) then Ok (hz (c_hdr c) "e_shstrndx")
-  else do h <- get_section_header c 0; do r <- some_hdr h; Ok (hz r "sh_link").
+  else do h <- get_section_header c 0;
+       match h with
+       | None => Err EElf         (* "section header 0 is beyond the end of the file" *)
+       | Some r => Ok (hz r "sh_link")
+       end.
 
 (* ---- Section.__init__: a section flagged SHF_COMPRESSED reads its Elf_Chdr at once *)
 Definition section_init (c : efcore) (h : hrec) : res unit :=
@@ -200,6 +205,7 @@ Definition num_sections (ef : elffile) : res Z :=
 Definition get_string (c : efcore) (strtab : hrec) (offset : Z) : res (list Z) :=
   let pos := hz strtab "sh_offset" + offset in
   if SEEK_LIMIT <=? pos then Err (EPy "OverflowError")
+  else if stream_len c <=? pos then Ok []            (* read at/after EOF: no terminator *)
   else match parse_cstring_at (c_img c) (Z.to_nat pos) with
        | Some s => Ok s
        | None => Ok []
